@@ -32,7 +32,7 @@ type c05stack struct {
 
 var c05stacks = []c05stack{
 	{"mem", "", false}, {"mem-deep", "d", false},
-	{"mount0", "", false}, {"mount-cross", "", false}, {"mount1", "m", false}, {"mount1-deep", "m/d", false}, {"mount2", "m/n", false},
+	{"mount0", "", false}, {"mount-cross", "", false}, {"mount1", "m", false}, {"mount1-deep", "m/d", false}, {"mount2", "m/n", false}, {"mount-nested", "m/n", false}, {"mount-nested-inner", "m", false},
 	{"sub(mem)", "", false}, {"sub(mem)-deep", "d", false}, {"sub(mount1)", "", false}, {"sub(mount-above)", "m", false}, {"sub(sub(mem))", "", false},
 	{"os1", "", false}, {"os1-deep", "d", false}, {"os2", "", false}, {"os3", "", false},
 	{"cache", "", true}, {"cache-deep", "d", true}, {"tar", "", true}, {"tar-deep", "d", true},
@@ -68,6 +68,21 @@ func c05build(env *core.Env, st c05stack) (*c05built, error) {
 					return nil, err
 				}
 			}
+		}
+		b.fs = mf
+	case "mount-nested", "mount-nested-inner":
+		// a mount.FS mounted inside a mount.FS: m -> inner mount FS, inside it n -> mem
+		root := mk()
+		mf, _ := mount.NewFS(root)
+		_ = hackpadfs.Mkdir(root, "m", 0o755)
+		innerRoot := mk()
+		_ = hackpadfs.Mkdir(innerRoot, "n", 0o755)
+		inner, _ := mount.NewFS(innerRoot)
+		if err := inner.AddMount("n", mk()); err != nil {
+			return nil, err
+		}
+		if err := mf.AddMount("m", inner); err != nil {
+			return nil, err
 		}
 		b.fs = mf
 	case "sub(mem)", "sub(mem)-deep":
@@ -250,7 +265,7 @@ func init() {
 	core.Register(&core.Prop{
 		ID:    "C05",
 		Level: "exploration",
-		Rule: "differential monitor on FAILING calls: every case of the C01 situation matrix (all namespace operations x target situations x argument variants, Rename over source x destination situations) plus invalid-name calls is issued with the caller's top-level name through 19 layer stacks (mem; mount with the target 0, 1, 2 mounts deep and below a mounted directory; generic Sub of mem / of a mount / above a mount / of a Sub; os.FS under 1..3 Sub roots; cache; tar) and on a flattened mirror of the same namespace in one os directory; whenever the subject fails its error must be *PathError / *LinkError, its path fields must equal what os names for the same failure (the name passed in when os succeeds), never empty/absolute/inner, " +
+		Rule: "differential monitor on FAILING calls: every case of the C01 situation matrix (all namespace operations x target situations x argument variants, Rename over source x destination situations) plus invalid-name calls is issued with the caller's top-level name through 22 layer stacks (mem; mount with the target 0, 1, 2 mounts deep, below a mounted directory, across a mount boundary, and through a mount.FS mounted inside a mount.FS; generic Sub of mem / of a mount / above a mount / of a Sub; os.FS under 1..3 Sub roots; cache; tar) and on a flattened mirror of the same namespace in one os directory; whenever the subject fails its error must be *PathError / *LinkError, its path fields must equal what os names for the same failure (the name passed in when os succeeds), never empty/absolute/inner, " +
 			"and its class must equal os's class when that is one of the seven sentinels; unsupported operations must answer ErrNotImplemented. Non-trivial: cases in which the subject failed at least once; distinct by (stack, case)",
 		Assumptions: []string{"reference error paths are Go os error paths made relative to the mirror's root", "cache and tar stacks only issue read operations (Open/Stat/ReadDir/ReadFile); their trees are built before the FS is constructed", "the Op field of errors is not compared"},
 		NumCases:    func(env *core.Env) int { return len(c05cases(env)) },
